@@ -77,11 +77,12 @@ Proof.
   assert (Hlen : length f = length sch) by (destruct Hwf; assumption).
   assert (Hnn : Z.ltb (Z.of_nat (flen f)) 0 = false) by (apply Z.ltb_ge; lia).
   assert (Hs1 : rsess r1 = s) by (subst r1 r0; cbn [rsess Batch.after]; exact Hs).
+  rewrite Hnn, andb_false_r.
   destruct (Nat.leb (flen f) (flen dest)) eqn:Ele.
   - (* direct *)
     apply Nat.leb_le in Ele.
     replace (Z.leb (Z.of_nat (flen f)) (Z.of_nat (flen dest))) with true by (symmetry; apply Z.leb_le; lia).
-    rewrite Hnn, Nat2Z.id.
+    rewrite Nat2Z.id.
     assert (Hsh : same_shape f (ftake (flen f) dest)).
     { apply (same_shape_ftake sch); [exact Hwf|destruct Hwd; assumption|].
       eapply Forall_le_of_eq; [exact Ele|apply (wf_cols sch); exact Hwd]. }
@@ -138,10 +139,11 @@ Proof.
   assert (Hlen : length f = length sch) by (destruct Hwf; assumption).
   assert (Hnn : Z.ltb (Z.of_nat (flen f)) 0 = false) by (apply Z.ltb_ge; lia).
   assert (Hs1 : rsess r1 = s) by (subst r1 r0; cbn [rsess Batch.after]; exact Hs).
+  rewrite Hnn, andb_false_r.
   destruct (Nat.leb (flen f) (flen dest)) eqn:Ele.
   - apply Nat.leb_le in Ele.
     replace (Z.leb (Z.of_nat (flen f)) (Z.of_nat (flen dest))) with true by (symmetry; apply Z.leb_le; lia).
-    rewrite Hnn, Nat2Z.id.
+    rewrite Nat2Z.id.
     assert (Hsh : same_shape f (ftake (flen f) dest)).
     { apply (same_shape_ftake sch); [exact Hwf|destruct Hwd; assumption|].
       eapply Forall_le_of_eq; [exact Ele|apply (wf_cols sch); exact Hwd]. }
@@ -182,11 +184,12 @@ Proof.
   assert (Hlen : length f = length sch) by (destruct Hwf; assumption).
   assert (Hnn : Z.ltb (Z.of_nat (flen f)) 0 = false) by (apply Z.ltb_ge; lia).
   assert (Hs1 : rsess r1 = s) by (subst r1 r0; cbn [rsess Batch.after]; exact Hs).
+  rewrite Hnn, andb_false_r.
   assert (Hi' : i <= length es) by lia.
   destruct (Nat.leb (flen f) (flen dest)) eqn:Ele.
   + apply Nat.leb_le in Ele.
     replace (Z.leb (Z.of_nat (flen f)) (Z.of_nat (flen dest))) with true by (symmetry; apply Z.leb_le; lia).
-    rewrite Hnn, Nat2Z.id.
+    rewrite Nat2Z.id.
     assert (Hsh : same_shape f (ftake (flen f) dest)).
     { apply (same_shape_ftake sch); [exact Hwf|destruct Hwd; assumption|].
       eapply Forall_le_of_eq; [exact Ele|apply (wf_cols sch); exact Hwd]. }
@@ -202,6 +205,55 @@ Proof.
     { apply (same_shape_ftake sch); [exact Hwf|exact Hml|]. eapply Forall_le_of_eq; [exact HL|exact Hmc]. }
     rewrite (decode_cut Sess cenc cdec cf H_codec term sch f r1 es c uc s _ i Hes eq_refl Hs1 Hlen Hsh Hi').
     eexists. split; reflexivity.
+Qed.
+
+(* repair 3: the batch length n' disagrees with the element count of the first, gob-encoded
+   column: an integrity error (before the checksum is even reached) *)
+Lemma read_len_mismatch (r : R) n' u0 u1 cl u2 rest k ks dest :
+  fix_collen cf = true -> sch = k :: ks ->
+  rerr r = None -> flen (rbuf r) = 0 ->
+  rst r = ((TLen (Z.of_nat n'), u0) :: (TFlag false, u1) :: (TCol cl, u2) :: fst rest, snd rest) ->
+  length cl <> n' -> wf_frame sch dest -> scratch_ok (rscratch r) ->
+  exists r', READ r dest = (RErr EIntegrity, r') /\ rerr r' = Some EIntegrity.
+Proof.
+  intros Hfix Hsch He Hb Hst Hne Hwd Hsc.
+  unfold read. rewrite He, Hb. cbn [Nat.eqb].
+  set (r0 := mkR (rinp r) (rst r) (rsess r) 0 (rscratch r) (rbuf r) (@None err)).
+  assert (Hst0 : rst r0 = ((TLen (Z.of_nat n'), u0) :: ((TFlag false, u1) :: (TCol cl, u2) :: fst rest), snd rest))
+    by (subst r0; cbn [rst]; exact Hst).
+  rewrite (rd_pop Sess r0 _ _ _ _ Hst0).
+  set (r1 := Batch.after Sess r0 [(TLen (Z.of_nat n'), u0)] ((TFlag false, u1) :: (TCol cl, u2) :: fst rest, snd rest) (rsess r0)).
+  assert (Hnn : Z.ltb (Z.of_nat n') 0 = false) by (apply Z.ltb_ge; lia).
+  rewrite Hnn, andb_false_r.
+  (* decoding into any memory whose first column has exactly n' rows fails on the first column *)
+  assert (Hdec : forall c0 mrest, length c0 = n' ->
+            decode dscript dec_script Sess cdec cf r1 sch (c0 :: mrest) = DfErr EIntegrity).
+  { intros c0 mrest Hc0. unfold decode. rewrite Hsch. cbn [fzero map dec_cols]. unfold dec_col.
+    rewrite (rd_pop Sess r1 (TFlag false) u1 ((TCol cl, u2) :: fst rest) (snd rest) eq_refl).
+    rewrite (rd_pop Sess (Batch.after Sess r1 [(TFlag false, u1)] ((TCol cl, u2) :: fst rest, snd rest) (rsess r1))
+                    (TCol cl) u2 (fst rest) (snd rest) eq_refl).
+    rewrite Hfix, map_length, Hc0.
+    replace (Nat.eqb (length cl) n') with false by (symmetry; apply Nat.eqb_neq; exact Hne).
+    reflexivity. }
+  assert (Hlen : length dest = length sch) by (destruct Hwd; assumption).
+  destruct (Nat.leb n' (flen dest)) eqn:Ele.
+  - apply Nat.leb_le in Ele.
+    replace (Z.leb (Z.of_nat n') (Z.of_nat (flen dest))) with true by (symmetry; apply Z.leb_le; lia).
+    rewrite Nat2Z.id.
+    destruct dest as [|c0 drest]; [rewrite Hsch in Hlen; discriminate|].
+    cbn [ftake map]. rewrite Hdec.
+    + eexists. split; reflexivity.
+    + rewrite firstn_length. simpl in Ele. lia.
+  - apply Nat.leb_gt in Ele.
+    replace (Z.leb (Z.of_nat n') (Z.of_nat (flen dest))) with false by (symmetry; apply Z.leb_gt; lia).
+    rewrite Nat2Z.id.
+    assert (Hsc1 : rscratch r1 = rscratch r) by reflexivity. rewrite Hsc1.
+    destruct (ensure_shape (rscratch r) n' Hsc) as (Hml & L & HL & Hmc).
+    set (mem := ensure sch (rscratch r) n') in *.
+    destruct mem as [|m0 mrest]; [rewrite Hsch in Hml; discriminate|].
+    cbn [ftake map]. rewrite Hdec.
+    + eexists. split; reflexivity.
+    + rewrite firstn_length. inversion Hmc; subst. lia.
 Qed.
 
 (* ---------------------------------------------------------------- a run of intact batches *)
